@@ -46,7 +46,15 @@ func vGroup(addr string, foo, bad, meta string, split int, withMeta bool) *targe
 // where the labels sit (group or target), a __meta_ label and its value, and (through the forks of
 // the executor) every map-iteration order - give the same hash and the same shipped labels.
 // variant 1: equal inputs give equal hashes; a differing label value is visible in the hash input.
+// variant 2: the hash is sensitive to every final label: two targets that differ only in the value
+// of one label that survives into the final label set (an ordinary one, or a reserved one such as
+// __tmp_x that is not a __meta_ label and not part of the URL) CAN have different hashes - with
+// the hash functions uninterpreted this is satisfiable exactly when the label reaches the hash.
 func VHash(variant int) {
+	if variant == 2 {
+		vHashSensitive()
+		return
+	}
 	cfg := vHashCfg()
 	foo, bad := zzv.Str("foo"), zzv.Str("bad")
 	zzv.Assume(foo != "" && bad != "")
@@ -85,6 +93,27 @@ func VHash(variant int) {
 		zzv.Assert("C15.hash.equal.inputs.equal.hash", zzv.Implies(zzv.Str("foo2") == foo, r2[0].ShardTarget.Hash == r1[0].ShardTarget.Hash))
 	}
 	zzv.Observe("hash", len(r1), len(r2))
+	zzv.Cover("hash.end")
+}
+
+func vHashSensitive() {
+	cfg := vHashCfg()
+	name := []string{"foo", "__tmp_x", "__scrape_interval__"}[zzv.Choose("which", 3)]
+	v1, v2 := zzv.Str("v1"), zzv.Str("v2")
+	zzv.Assume(v1 != "" && v2 != "" && v1 != v2)
+	mk := func(v string) *targetgroup.Group {
+		t := model.LabelSet{model.AddressLabel: "h1:80", model.LabelName(name): model.LabelValue(v)}
+		return &targetgroup.Group{Source: "src", Targets: []model.LabelSet{t}}
+	}
+	r1, err1 := targetsFromGroup(mk(v1), cfg)
+	r2, err2 := targetsFromGroup(mk(v2), cfg)
+	zzv.Assert("C15.sensitive.noerror", err1 == nil && err2 == nil && len(r1) == 1 && len(r2) == 1)
+	if err1 != nil || err2 != nil || len(r1) != 1 || len(r2) != 1 {
+		return
+	}
+	zzv.Cover("hash.sensitive")
+	zzv.Assert("C15.hash.sensitive.to.final.label", zzv.Feasible(r1[0].ShardTarget.Hash != r2[0].ShardTarget.Hash))
+	zzv.Observe("sensitive", name)
 	zzv.Cover("hash.end")
 }
 
